@@ -63,6 +63,21 @@ Print Assumptions C06_radau_right_end_partial.
 
 (* no gaps: on a contiguous chain of segments (either direction) every t between the first and last covered
    time is evaluated, by a segment that contains t exactly *)
+(* Radau, both ends (supersedes the partial statement above): with the coefficient blocks built as in the accepted branch
+   of model/Radau.v (`radau_cont`), the interpolant equals the old state at the left end and the new state y + Z3 at the
+   right end of the step -- exact over the rationals of the source literals, where C1M1 = C1-1 etc. hold digit for digit *)
+Require Import IVP.proofs.RadauDenseFacts.
+Theorem C06_radau_endpoints :
+  forall n (y z1 z2 z3 : list R) i xold h,
+    length y = n -> length z1 = n -> length z2 = n -> length z3 = n -> (i < n)%nat -> h <> 0 ->
+    nth i (Radau.interpolate Rops (radau_cont y z1 z2 z3) xold h (xold + 0 * h) n) 0 = nth i y 0 /\
+    nth i (Radau.interpolate Rops (radau_cont y z1 z2 z3) xold h (xold + 1 * h) n) 0 = nth i y 0 + nth i z3 0.
+Proof.
+  intros n y z1 z2 z3 i xold h Hy H1 H2 H3 Hi Hh.
+  destruct (radau_dense_interpolates n y z1 z2 z3 i xold h Hy H1 H2 H3 Hi Hh) as [A [_ [_ B]]]. split; [exact A|exact B].
+Qed.
+Print Assumptions C06_radau_endpoints.
+
 Theorem C06_sol_covers_span :
   forall fwd m n (S : solution (F:=R)) segs x t,
     sol_segs S = Some segs -> segs <> [] -> chain fwd x segs ->
